@@ -298,7 +298,7 @@ class Verdict:
     def attribute(self, fid):
         self.known[fid] = self.known.get(fid, 0) + 1
 
-    def finish(self, max_print=25):
+    def finish(self, max_print=12):
         for f in self.findings:
             if self.known.get(f["id"], 0) > 0:
                 print("KNOWN-FINDING: property=%s %s [%s: %d observation(s)]" % (self.pid, f["what"], f["id"], self.known[f["id"]]))
